@@ -141,10 +141,11 @@ static void put_out(const vh::Json& j) { g_outs += j.done(); g_outs += '\n'; ++g
 static void flush_text() { fputs(g_text.c_str(), g_out); fflush(g_out); g_text.clear(); }
 
 static int g_mark = 0;
-static void mark(const char* name) {
+static int g_phase = 0;     // 0: set-up part of a run; p >= 1: p-th entry of the thread-count history
+static void mark(const char* name, long nthreads = 0) {
   rec::Buf* buf = rec::my_buf();
   const uint64_t seq = rec::g_seq.fetch_add(1);
-  buf->ev.push_back({ seq, rec::MARK, buf->tid, (long)++g_mark, (long)(intptr_t)name, 0, 0 });
+  buf->ev.push_back({ seq, rec::MARK, buf->tid, (long)++g_mark, (long)(intptr_t)name, nthreads, 0 });
 }
 
 static void begin_recording(uint64_t runseed, int mode) {
@@ -184,7 +185,7 @@ static void end_recording() {
     case rec::DIST_ITEM: j.num("tn", e.a).arr("it", std::vector<long>{ e.b, e.c, e.d }); break;
     case rec::DIST_REDUCE: j.num("i", e.a).num("sz", e.b); break;
     case rec::SC_GET: j.num("kind", e.a).arr("k", std::vector<long>{ e.b, e.c }).num("st", e.d); break;
-    case rec::MARK: j.num("i", e.a).str("name", (const char*)(intptr_t)e.b); break;
+    case rec::MARK: j.num("i", e.a).str("name", (const char*)(intptr_t)e.b).num("nt", e.c); break;
     default: break;
     }
     if (n > 1) j.num("n", (long long)n);
@@ -214,10 +215,10 @@ static void out_fx(const std::string& name, const std::vector<double>& v) {
     q.push_back(y);
     mx = std::max(mx, y < 0 ? -y : y);
   }
-  put_out(vh::Json("Out").str("name", name).str("kind", "fx").num("k", k).num("mx", mx).num("nonfinite", bad).arr("v", q));
+  put_out(vh::Json("Out").str("name", name).num("ph", g_phase).str("kind", "fx").num("k", k).num("mx", mx).num("nonfinite", bad).arr("v", q));
 }
 static void out_int(const std::string& name, const std::vector<long long>& v) {
-  put_out(vh::Json("Out").str("name", name).str("kind", "int").num("k", 0).num("mx", 0).num("nonfinite", 0).arr("v", v));
+  put_out(vh::Json("Out").str("name", name).num("ph", g_phase).str("kind", "int").num("k", 0).num("mx", 0).num("nonfinite", 0).arr("v", v));
 }
 static std::vector<double> img_vals(const DiscretisedDensity<3, float>& im) {
   std::vector<double> v;
@@ -243,7 +244,11 @@ struct Cfg {
   int ntl = 1, sym = 31;
   bool basic_only = true, file_io = false, has_add = false, has_norm = false, use_cache = true;
   int subsets = 1;
-  int raise_to = 0;      // > 0: number of threads set AFTER the projectors' set_up (the run starts with fewer)
+  // thread-count history of the run: objects are built and set up with T0 threads, then the compute calls are
+  // repeated on the SAME objects (fresh targets, no new set_up) once per entry of hist with that many threads
+  int T0 = 1;
+  std::vector<int> hist = { 1 };
+  std::vector<int> hist_modes = { 0 };
   uint64_t data_seed = 1;
   std::string scratch;
 };
@@ -304,6 +309,20 @@ static void cfg_json(vh::Json& j, const Cfg& c) {
       .boolean("fileIO", c.file_io).boolean("hasAdd", c.has_add).boolean("hasNorm", c.has_norm).boolean("useCache", c.use_cache).num("subsets", c.subsets);
 }
 
+// =================================================================== thread-count phases
+// runs `body` once per entry of the run's thread-count history
+static void mark(const char* name, long nthreads);
+static void mark_phase(int nthreads) { mark("phase", nthreads); }
+template <class F> static void phases(const Cfg& c, F body) {
+  for (size_t p = 0; p < c.hist.size(); ++p) {
+    stir::set_num_threads(c.hist[p]);
+    rec::g_mode = c.hist_modes[p];
+    g_phase = (int)p + 1;
+    mark_phase(c.hist[p]);
+    body();
+  }
+}
+
 // =================================================================== workloads
 // Each workload builds FRESH objects (so first-use races are re-armed), calls the public API and appends its
 // outputs.  `objs` (reported in the Run line) is 1 when exactly one object per lazy table id and exactly one
@@ -327,6 +346,7 @@ static void wl_lazy(const Cfg& c) {
   const int nwork = (int)std::min<size_t>(bins.size(), 240);
   std::vector<int> pick(nwork), op(nwork);
   for (int i = 0; i < nwork; ++i) { pick[i] = rng.range(0, (int)bins.size() - 1); op[i] = rng.range(0, 4); }
+  phases(c, [&] {
   std::vector<long long> res((size_t)nwork * 5, 0);
   mark("lazy");
 #pragma omp parallel for schedule(dynamic, 1)
@@ -363,6 +383,7 @@ static void wl_lazy(const Cfg& c) {
   }
   mark("end");
   out_int("lazy", res);
+  });
 }
 
 // (b) the row cache of one matrix used concurrently for the same and for different rows
@@ -385,6 +406,7 @@ static void wl_rows(const Cfg& c) {
   std::vector<int> base(nbase), req(nreq);
   for (int i = 0; i < nbase; ++i) base[i] = rng.range(0, (int)bins.size() - 1);
   for (int i = 0; i < nreq; ++i) req[i] = base[rng.range(0, nbase - 1)];
+  phases(c, [&] {
   for (int pass = 0; pass < 2; ++pass) {
     std::vector<double> dig((size_t)nreq * 3, 0.);
     mark(pass == 0 ? "rows" : "rows.again");
@@ -405,6 +427,7 @@ static void wl_rows(const Cfg& c) {
     mark("end");
     out_fx(pass == 0 ? "rows" : "rows.again", dig);
   }
+  });
 }
 
 // (c) forward and back projection of whole data sets (matrix cache on, shared by both projectors)
@@ -419,10 +442,10 @@ static void wl_proj(const Cfg& c) {
   shared_ptr<BackProjectorByBin> bp(new BackProjectorByBinUsingProjMatrixByBin(pm));
   fp->set_up(pdi, image);
   bp->set_up(pdi, image);
-  if (c.raise_to > 0) stir::set_num_threads(c.raise_to);     // the caller asks for more threads after set_up
-  shared_ptr<ProjData> fwd = make_projdata(c, ex, pdi, c.file_io);
   shared_ptr<ProjData> data = make_projdata(c, ex, pdi, c.file_io);
   fill_projdata(*data, rng, 0, 6, 0.5F);
+  phases(c, [&] {
+  shared_ptr<ProjData> fwd = make_projdata(c, ex, pdi, c.file_io);      // fresh targets in every phase
   mark("fwd");
   if (c.subsets == 1) fp->forward_project(*fwd, *image);
   else {
@@ -443,9 +466,14 @@ static void wl_proj(const Cfg& c) {
     mark("end");
     out_fx("bck.subset" + std::to_string(s), img_vals(*back));
   }
+  });
 }
 
 // (d) Poisson log-likelihood for projection data: sensitivity, value, gradient, Hessian products
+class LLObj : public PoissonLogLikelihoodWithLinearModelForMeanAndProjData<Den> {
+public:
+  void recompute_sensitivities() { this->compute_sensitivities(); }     // what set_up() does, without a new set_up()
+};
 static void wl_ll(const Cfg& c) {
   shared_ptr<ExamInfo> ex = make_exam();
   shared_ptr<ProjDataInfo> pdi = make_pdi(c);
@@ -460,7 +488,7 @@ static void wl_ll(const Cfg& c) {
   if (c.has_add) { add = make_projdata(c, ex, pdi, c.file_io); fill_projdata(*add, rng, 2, 9, 0.25F); }
   if (c.has_norm) { norm = make_projdata(c, ex, pdi, false); fill_projdata(*norm, rng, 2, 6, 0.25F); }
   shared_ptr<ProjMatrixByBin> pm = make_matrix(c);
-  PoissonLogLikelihoodWithLinearModelForMeanAndProjData<Den> obj;
+  LLObj obj;
   obj.set_proj_data_sptr(y);
   obj.set_projector_pair_sptr(shared_ptr<ProjectorByBinPair>(new ProjectorByBinPairUsingProjMatrixByBin(pm)));
   if (add) obj.set_additive_proj_data_sptr(add);
@@ -473,6 +501,11 @@ static void wl_ll(const Cfg& c) {
   if (obj.set_up(image) != Succeeded::yes) error("objective function set_up failed");
   mark("end");
   for (int s = 0; s < c.subsets; ++s) out_fx("sens" + std::to_string(s), img_vals(obj.get_subset_sensitivity(s)));
+  phases(c, [&] {
+  mark("ll.sens");
+  obj.recompute_sensitivities();
+  mark("end");
+  for (int s = 0; s < c.subsets; ++s) out_fx("sens.again" + std::to_string(s), img_vals(obj.get_subset_sensitivity(s)));
   mark("ll.value");
   const double val = obj.compute_objective_function_without_penalty(*image);
   mark("end");
@@ -500,10 +533,14 @@ static void wl_ll(const Cfg& c) {
     mark("end");
     out_fx("approxhess" + std::to_string(s), img_vals(*g));
   }
+  });
 }
 
 // (e) list-mode objective function: sensitivity and gradient
-class LmObj : public PoissonLogLikelihoodWithLinearModelForMeanAndListModeDataWithProjMatrixByBin<Den> {};
+class LmObj : public PoissonLogLikelihoodWithLinearModelForMeanAndListModeDataWithProjMatrixByBin<Den> {
+public:
+  void recompute_sensitivities() { this->compute_sensitivities(); }
+};
 static void wl_lm(const Cfg& c) {
   shared_ptr<ProjDataInfo> pdi = make_pdi(c);
   vh::Rng rng(c.data_seed);
@@ -541,6 +578,11 @@ static void wl_lm(const Cfg& c) {
   if (obj.set_up(image) != Succeeded::yes) error("list-mode objective set_up failed");
   mark("end");
   for (int s = 0; s < c.subsets; ++s) out_fx("lmsens" + std::to_string(s), img_vals(obj.get_subset_sensitivity(s)));
+  phases(c, [&] {
+  mark("lm.sens");
+  obj.recompute_sensitivities();
+  mark("end");
+  for (int s = 0; s < c.subsets; ++s) out_fx("lmsens.again" + std::to_string(s), img_vals(obj.get_subset_sensitivity(s)));
   shared_ptr<Img> g(image->get_empty_copy());
   for (int s = 0; s < c.subsets; ++s) {
     g->fill(0.F);
@@ -554,6 +596,7 @@ static void wl_lm(const Cfg& c) {
     mark("end");
     out_fx("lmgrad" + std::to_string(s), img_vals(*g));
   }
+  });
 }
 
 // (f) single-scatter simulation
@@ -586,10 +629,14 @@ static void wl_scat(const Cfg& c) {
   sim.set_output_proj_data_sptr(out);
   mark("sc.set_up");
   if (sim.set_up() != Succeeded::yes) error("scatter set_up failed");
+  mark("end");
+  phases(c, [&] {
+  out->fill(0.F);
   mark("sc.process");
   if (sim.process_data() != Succeeded::yes) error("scatter process_data failed");
   mark("end");
   out_fx("scatter", pd_vals(*out));
+  });
 }
 
 // (d) one Interfile data set (ProjDataFromStream) read and written concurrently through its public interface
@@ -616,6 +663,7 @@ static void wl_io(const Cfg& c) {
     for (int v = pdi->get_min_view_num(); v <= pdi->get_max_view_num(); ++v)
       for (int k = pdi->get_min_tof_pos_num(); k <= pdi->get_max_tof_pos_num(); ++k)
         work.insert(work.begin() + rng.range(0, (int)work.size()), Item{ 3, v, s, 0, k });
+  phases(c, [&] {
   std::vector<double> dig(work.size() * 2, 0.);
   mark("io");
 #pragma omp parallel for schedule(dynamic, 1)
@@ -645,6 +693,7 @@ static void wl_io(const Cfg& c) {
   mark("end");
   out_fx("io.read", dig);
   out_fx("io.content", pd_vals(*pd));
+  });
 }
 
 static int objs_of(const std::string& wl) { return wl == "lazy" ? 1 : 0; }
@@ -701,19 +750,22 @@ static Cfg make_cfg(const std::string& wl, long inst, long round, uint64_t seed,
   return c;
 }
 
-// one execution: T threads, perturbation mode, fresh objects
-static void one_run(const Cfg& c, long inst, int T, int rep, int mode, uint64_t seed, bool is_ref) {
+// one execution: fresh objects built and set up with c.T0 threads, then the compute calls once per entry of c.hist
+static void one_run(const Cfg& c, long inst, int rep, uint64_t seed, bool is_ref) {
   g_is_ref = is_ref;
+  g_phase = 0;
   {
     vh::Json j("Run");
-    j.str("wl", c.wl).num("inst", inst).num("T", T).num("rep", rep).num("mode", mode).boolean("ref", is_ref).num("objs", objs_of(c.wl)).num("mats", mats_of(c))
-        .boolean("raised", c.raise_to > 0).num("raiseTo", c.raise_to);
+    j.str("wl", c.wl).num("inst", inst).num("T", c.T0).arr("hist", c.hist).num("rep", rep).num("mode", c.hist_modes[0]).boolean("ref", is_ref)
+        .num("objs", objs_of(c.wl)).num("mats", mats_of(c));
     g_text = j.done() + "\n"; ++g_lines; g_outs.clear();
     flush_text();                            // visible even if the run crashes
   }
-  stir::set_num_threads(T);
+  stir::set_num_threads(c.T0);
   std::string msg;
-  begin_recording(seed * 1315423911ULL + (uint64_t)inst * 2654435761ULL + (uint64_t)T * 97 + (uint64_t)rep, mode);
+  uint64_t h = 0;
+  for (int t : c.hist) h = h * 131 + (uint64_t)t;
+  begin_recording(seed * 1315423911ULL + (uint64_t)inst * 2654435761ULL + h * 97 + (uint64_t)rep, c.hist_modes[0]);
   const bool err = vh::threw([&] { run_workload(c); }, &msg);
   end_recording();
   for (const std::string& f : g_files) { unlink((f + ".hs").c_str()); unlink((f + ".s").c_str()); }
@@ -726,11 +778,13 @@ static void one_run(const Cfg& c, long inst, int T, int rep, int mode, uint64_t 
   flush_text();
 }
 
-static int child_main(const Cfg& c, long inst, uint64_t seed, int reps, int size, const std::string& path) {
+static int child_main(const Cfg& c0, long inst, uint64_t seed, int reps, int size, const std::string& path) {
   g_out = fopen(path.c_str(), "a");
   if (!g_out) return 3;
   vh::Rng rng(seed * 31ULL + (uint64_t)inst);
-  one_run(c, inst, 1, 0, 0, seed, true);
+  Cfg c = c0;
+  c.T0 = 1; c.hist = { 1 }; c.hist_modes = { 0 };
+  one_run(c, inst, 0, seed, true);
   // thread counts: always 2 and one large count; "more threads than work items" = 40
   std::vector<int> pool = { 2, 3, 4, 8, 16, 40 };
   std::vector<int> Ts = { 2, rng.coin() ? 16 : 8, rng.coin() ? 3 : 4 };
@@ -738,14 +792,24 @@ static int child_main(const Cfg& c, long inst, uint64_t seed, int reps, int size
   else if (rng.range(0, 2) == 0) Ts.push_back(40);
   for (int T : Ts)
     for (int r = 0; r < reps; ++r) {
-      const int mode = (r == 0) ? 2 : (int)(rng.next() % 5);
-      one_run(c, inst, T, r, mode, seed, false);
+      c.T0 = T; c.hist = { T }; c.hist_modes = { (r == 0) ? 2 : (int)(rng.next() % 5) };
+      one_run(c, inst, r, seed, false);
     }
-  // last (a crash ends the child process): the number of threads is raised between set_up and the projections
-  if (c.wl == "proj") {
-    Cfg c2 = c;
-    c2.raise_to = rng.coin() ? 8 : 4;
-    one_run(c2, inst, 2, 99, 1, seed, false);
+  // thread-count histories on the SAME objects: set_up with one count, then the counts go up and down
+  // (a crash ends the child process: these runs come last)
+  const int nhist = size ? 3 : 1;
+  for (int k = 0; k < nhist; ++k) {
+    std::vector<int> seqs = { 8, 2, 16, 1, 3, 4, 40 };
+    for (int i = (int)seqs.size() - 1; i > 0; --i) std::swap(seqs[i], seqs[rng.range(0, i)]);
+    seqs.resize(size ? 5 : 2);
+    // make sure the history contains: more threads than at set_up, then fewer than before, then more again
+    const int hi = rng.coin() ? 8 : 16, lo = rng.coin() ? 2 : 1;
+    c.T0 = k % 2 == 0 ? rng.pick(std::vector<int>{ 2, 3, 4 }) : hi;
+    c.hist = { hi, lo };
+    for (int t : seqs) c.hist.push_back(t);
+    c.hist_modes.clear();
+    for (size_t i = 0; i < c.hist.size(); ++i) c.hist_modes.push_back(i == 0 ? 2 : (int)(rng.next() % 5));
+    one_run(c, inst, 100 + k, seed, false);
   }
   fclose(g_out);
   return 0;
